@@ -188,6 +188,11 @@ func c21ops() []vop {
 			}
 			return buf(func(rs io.ReadSeeker, w io.Writer) error { return api.AddAnnotations(rs, w, sels[v/2], ann, newConf()) }, in)
 		}},
+		{"removeannotations", 9, "", func(d string, in []byte, v int) ([][]byte, error) {
+			pages := [][]string{nil, {"1"}, {"2-"}}[v/3]
+			what := [][]string{nil, {"Text"}, {"Link"}}[v%3]
+			return buf(func(rs io.ReadSeeker, w io.Writer) error { return api.RemoveAnnotations(rs, w, pages, what, nil, newConf()) }, in)
+		}},
 		{"addbookmarks", 3 + len(c21Hazards) + 4, "", func(d string, in []byte, v int) ([][]byte, error) {
 			all := [][]pdfcpu.Bookmark{
 				{{Title: "One", PageFrom: 1}},
@@ -368,6 +373,7 @@ func runC21(r *core.R) {
 		input{"foreign:name-tree (1 (1 1 1))", c39TreeDoc(ntShape{Kids: []ntShape{{Leaf: 1}, {Kids: []ntShape{{Leaf: 1}, {Leaf: 1}, {Leaf: 1}}}}}, []string{"b.txt", "d.txt", "f.txt", "h.txt"})},
 		input{"foreign:outline named destinations", c36ForeignOutline(fbm, "named-name-tree-array")},
 		input{"foreign:metadata", c35ForeignDoc()},
+		input{"foreign:shared /Annots array", c21SharedAnnotsDoc()},
 	)
 	if r.Quick() {
 		for _, f := range docgen.Family(true) {
@@ -538,3 +544,18 @@ var c21ViewerPrefs = func() []string {
 // c21Hazards: strings with one representative per lexical hazard of the PDF syntax and of text encodings.
 var c21Hazards = []string{"", " ", "(", ")", "((", "\\", "a\nb", "a\rb", "\t", "<", ">", "[", "]", "/", "#", "%", "ü", "€", "日本", "\u2028", "\x7f", "\x01",
 	strings.Repeat("long ", 80), "a(b)c\\d", "D:20240101", "true", "null", "1 0 R"}
+
+// c21SharedAnnotsDoc: two pages refer to ONE indirect /Annots array (holding one link and one text annotation);
+// a third page has an array of its own.
+func c21SharedAnnotsDoc() []byte {
+	d := docgen.Simple([]docgen.PageSpec{{Marker: 1}, {Marker: 2}, {Marker: 3}}, docgen.SimpleOpts{Title: "shared annots"})
+	pn := d.PageNrs()
+	link := d.Add("<</Type/Annot/Subtype/Link/Rect[10 10 100 30]/Border[0 0 0]/A<</S/URI/URI(https://example.org/)>>>>")
+	text := d.Add("<</Type/Annot/Subtype/Text/Rect[10 50 30 70]/Contents(shared note)>>")
+	own := d.Add("<</Type/Annot/Subtype/Text/Rect[10 50 30 70]/Contents(own note)>>")
+	arr := d.Add(fmt.Sprintf("[%s %s]", docgen.Ref(link), docgen.Ref(text)))
+	d.AppendEntries(pn[0], "/Annots "+docgen.Ref(arr))
+	d.AppendEntries(pn[1], "/Annots "+docgen.Ref(arr))
+	d.AppendEntries(pn[2], fmt.Sprintf("/Annots[%s]", docgen.Ref(own)))
+	return d.Bytes()
+}
